@@ -196,7 +196,7 @@ Definition hp_enqueue (q : hpq) (asdu : list Z) : res (bool * hpq) :=
     match r1 with
     | Fault w => Fault w
     | Ok (q1, nx0) =>
-      let '(q2, nx) := if nx0 + esize >? hsize q1
+      let '(q2, nx) := if (nx0 + esize >? hsize q1) && ((hcnt q1 =? 0) || (nx0 >? hfirst q1))
                        then ({| hsize := hsize q1; hcnt := hcnt q1; hfirst := hfirst q1; hlast := hlast q1; hlib := hlast q1; hcells := hcells q1 |}, 0)
                        else (q1, nx0) in
       let '(q3, enq) :=
@@ -232,7 +232,7 @@ Definition hp_full (q : hpq) : res bool :=
     | None => Fault (hlast q)
     | Some a =>
       let nx0 := hlast q + 2 + Z.of_nat (length a) in
-      let nx := if nx0 + 252 >? hsize q then 0 else nx0 in
+      let nx := if (nx0 + 252 >? hsize q) && (nx0 >? hfirst q) then 0 else nx0 in
       Ok ((nx <=? hfirst q) && (nx + 252 >? hfirst q))
     end
   else Ok false.
